@@ -230,15 +230,19 @@ impl SparseVector {
 
     // Split a bitvector index into high and low parts.
     fn split(&self, index: usize) -> Parts {
+        // A loaded vector may use 64-bit low parts; the high part is then always 0.
+        let width = self.low.width();
         Parts {
-            high: index >> self.low.width(),
-            low: index & unsafe { bits::low_set_unchecked(self.low.width()) as usize },
+            high: if width < bits::WORD_BITS { index >> width } else { 0 },
+            low: index & unsafe { bits::low_set_unchecked(width) as usize },
         }
     }
 
     // Get (rank, bitvector index) from the offsets in `high` and `low`.
     fn combine(&self, pos: Pos) -> (usize, usize) {
-        (pos.low, ((pos.high - pos.low) << self.low.width()) + (self.low.get(pos.low) as usize))
+        let width = self.low.width();
+        let high = if width < bits::WORD_BITS { (pos.high - pos.low) << width } else { 0 };
+        (pos.low, high + (self.low.get(pos.low) as usize))
     }
 
     // Get the offsets in `high` and `low` for the set bit of the given rank.
